@@ -463,6 +463,162 @@ fn run_redirects(ctx: &Ctx, cn: &Cn, samples: &Samples) {
     }
 }
 
+
+// ---------------------------------------------------------------- live slice: the same over the wire
+
+mod live12 {
+    use super::*;
+    use dropshot::{ApiDescription, ApiEndpoint, ApiEndpointVersions, Query, RequestContext};
+    use serde::Deserialize;
+    use vh::live::*;
+
+    #[derive(Deserialize, JsonSchema)]
+    struct V {
+        v: String,
+        loc: Option<String>,
+    }
+    #[derive(Serialize, Deserialize, JsonSchema, PartialEq, Debug)]
+    struct Out {
+        v: String,
+        n: u64,
+    }
+    type Q = Query<V>;
+    type Rq = RequestContext<()>;
+    async fn ok(_r: Rq, q: Q) -> Result<HttpResponseOk<Out>, HttpError> {
+        Ok(HttpResponseOk(Out { v: q.into_inner().v, n: u64::MAX }))
+    }
+    async fn created(_r: Rq, q: Q) -> Result<HttpResponseCreated<Out>, HttpError> {
+        Ok(HttpResponseCreated(Out { v: q.into_inner().v, n: 1 }))
+    }
+    async fn accepted(_r: Rq, q: Q) -> Result<HttpResponseAccepted<Out>, HttpError> {
+        Ok(HttpResponseAccepted(Out { v: q.into_inner().v, n: 2 }))
+    }
+    async fn deleted(_r: Rq, _q: Q) -> Result<HttpResponseDeleted, HttpError> {
+        Ok(HttpResponseDeleted())
+    }
+    async fn updated(_r: Rq, _q: Q) -> Result<HttpResponseUpdatedNoContent, HttpError> {
+        Ok(HttpResponseUpdatedNoContent())
+    }
+    async fn headers(_r: Rq, q: Q) -> Result<HttpResponseHeaders<HttpResponseOk<Out>, H2>, HttpError> {
+        let v = q.into_inner().v;
+        let mut r = HttpResponseHeaders::new(HttpResponseOk(Out { v: v.clone(), n: 3 }), H2 { one: v.clone(), two: "declared-two".into() });
+        r.headers_mut().insert("x-two", http::HeaderValue::from_static("explicit-two"));
+        r.headers_mut().append("x-three", http::HeaderValue::from_static("a"));
+        r.headers_mut().append("x-three", http::HeaderValue::from_static("b"));
+        Ok(r)
+    }
+    async fn found(_r: Rq, q: Q) -> Result<dropshot::HttpResponseFound, HttpError> {
+        http_response_found(q.into_inner().loc.unwrap_or_default())
+    }
+    async fn see_other(_r: Rq, q: Q) -> Result<dropshot::HttpResponseSeeOther, HttpError> {
+        http_response_see_other(q.into_inner().loc.unwrap_or_default())
+    }
+    async fn temp(_r: Rq, q: Q) -> Result<dropshot::HttpResponseTemporaryRedirect, HttpError> {
+        http_response_temporary_redirect(q.into_inner().loc.unwrap_or_default())
+    }
+
+    pub fn run(ctx: &Ctx, cn: &Cn, samples: &Samples) -> Value {
+        let mut api = ApiDescription::<()>::new();
+        let ct = "application/json";
+        let m = http::Method::GET;
+        let all = || ApiEndpointVersions::All;
+        api.register(ApiEndpoint::new("ok".into(), ok, m.clone(), ct, "/ok", all())).unwrap();
+        api.register(ApiEndpoint::new("created".into(), created, m.clone(), ct, "/created", all())).unwrap();
+        api.register(ApiEndpoint::new("accepted".into(), accepted, m.clone(), ct, "/accepted", all())).unwrap();
+        api.register(ApiEndpoint::new("deleted".into(), deleted, m.clone(), ct, "/deleted", all())).unwrap();
+        api.register(ApiEndpoint::new("updated".into(), updated, m.clone(), ct, "/updated", all())).unwrap();
+        api.register(ApiEndpoint::new("headers".into(), headers, m.clone(), ct, "/headers", all())).unwrap();
+        api.register(ApiEndpoint::new("found".into(), found, m.clone(), ct, "/found", all())).unwrap();
+        api.register(ApiEndpoint::new("see_other".into(), see_other, m.clone(), ct, "/see_other", all())).unwrap();
+        api.register(ApiEndpoint::new("temp".into(), temp, m, ct, "/temp", all())).unwrap();
+        let srv = LiveServer::start(api, (), ServerOpts::default()).unwrap_or_else(|e| machinery_failure(&e));
+        let mut ka = KeepAlive::new(srv.addr);
+        let values = ["", "plain", "q\"uote\\ and / slash", "é\u{1F600}\u{2028}", "line\nbreak"];
+        let locs = ["/next", "/p?q=1#f", "/caf\u{e9}", "/with\ttab", "https://example.com/x", "/bad\nlocation", "/nul\u{0}"];
+        let t = std::time::Duration::from_secs(10);
+        let mut n = 0u64;
+        for v in values {
+            for (path, status, num) in [("/ok", 200u16, Some(u64::MAX)), ("/created", 201, Some(1)), ("/accepted", 202, Some(2)), ("/deleted", 204, None), ("/updated", 204, None), ("/headers", 200, Some(3))] {
+                n += 1;
+                cn.evals.fetch_add(1, Ordering::Relaxed);
+                let header_legal = legal_header_value(v.as_bytes());
+                let r = ka.roundtrip(&get(&format!("{path}?v={}", pct(v.as_bytes())), ""), false, t);
+                let case = json!({"kind":"live_request","seam":"wire","path": path, "value": v});
+                let ReadOutcome::Resp(resp) = &r else {
+                    ctx.report(Violation { sig: json!({"kind":"live_no_response"}), case, expected: json!(status), observed: json!(format!("{r:?}")) });
+                    continue;
+                };
+                let mut why: Vec<&str> = vec![];
+                if path == "/headers" && !header_legal {
+                    // an illegal declared header value is refused with an error, never sent mangled
+                    if resp.status < 500 {
+                        why.push("illegal declared header value not refused");
+                    }
+                } else {
+                    if resp.status != status {
+                        why.push("status");
+                    }
+                    match num {
+                        Some(k) => {
+                            if resp.header_str("content-type").as_deref() != Some("application/json") {
+                                why.push("content-type");
+                            }
+                            if serde_json::from_slice::<Out>(&resp.body).ok() != Some(Out { v: v.to_string(), n: k }) {
+                                why.push("body does not parse back to the value");
+                            }
+                            if resp.header_str("content-length") != Some(resp.body.len().to_string()) {
+                                why.push("content-length");
+                            }
+                        }
+                        None => {
+                            if !resp.body.is_empty() {
+                                why.push("body not empty");
+                            }
+                        }
+                    }
+                    if path == "/headers" {
+                        if resp.header("x-one") != vec![v.as_bytes()] {
+                            why.push("declared header x-one");
+                        }
+                        if resp.header("x-two") != vec![b"explicit-two".as_ref()] {
+                            why.push("explicit header does not override the declared one");
+                        }
+                        if resp.header("x-three") != vec![b"a".as_ref(), b"b".as_ref()] {
+                            why.push("explicit multi-valued header");
+                        }
+                    }
+                }
+                if !why.is_empty() {
+                    ctx.report(Violation { sig: json!({"kind":"wire_response","path": path, "why": why}), case, expected: json!({"status": status}), observed: resp.to_json() });
+                }
+                samples.offer(|| json!({"wire": path, "value": v, "status": resp.status, "body": String::from_utf8_lossy(&resp.body)}));
+            }
+        }
+        for loc in locs {
+            for (path, status) in [("/found", 302u16), ("/see_other", 303), ("/temp", 307)] {
+                n += 1;
+                cn.evals.fetch_add(1, Ordering::Relaxed);
+                let legal = legal_header_value(loc.as_bytes());
+                let r = ka.roundtrip(&get(&format!("{path}?v=x&loc={}", pct(loc.as_bytes())), ""), false, t);
+                let case = json!({"kind":"live_request","seam":"wire","path": path, "location": loc});
+                let ReadOutcome::Resp(resp) = &r else {
+                    ctx.report(Violation { sig: json!({"kind":"live_no_response"}), case, expected: json!(status), observed: json!(format!("{r:?}")) });
+                    continue;
+                };
+                let ok = if legal {
+                    resp.status == status && resp.body.is_empty() && resp.header("location") == vec![loc.as_bytes()]
+                } else {
+                    resp.status >= 500 && resp.header("location").is_empty()
+                };
+                if !ok {
+                    ctx.report(Violation { sig: json!({"kind":"wire_redirect","legal_location": legal}), case, expected: json!({"status": if legal { status } else { 500 }, "location": loc}), observed: resp.to_json() });
+                }
+            }
+        }
+        json!({"wire_requests": n})
+    }
+}
+
 fn main() {
     let args = parse_args();
     quiet_panics();
@@ -502,7 +658,9 @@ fn main() {
     run_headers(&ctx, &cn, &samples);
     let after_headers = cn.evals.load(Ordering::Relaxed);
     run_redirects(&ctx, &cn, &samples);
+    let wire = live12::run(&ctx, &cn, &samples);
     let cov = json!({
+        "live_slice": wire,
         "evaluations": cn.evals.load(Ordering::Relaxed),
         "distinct_nontrivial": cn.nontrivial.load(Ordering::Relaxed),
         "rule": "bodies: full product of field value lists (strings incl. all C0 controls/DEL/U+2028/non-BMP, integer and float extremes, options, byte vectors, maps) x {Ok,Created,Accepted,Headers<Ok>}: status, content-type, body parses back bit-exactly. headers: declared value list (empty, visible ASCII, obs-text, every C0 byte and DEL in the middle, leading/trailing space) x 4 explicit operations x 2 explicit values x 4 header-struct types interleaved in alternating order: legality decided by http::HeaderValue::from_bytes; present-with-exact-bytes / overridden / refused. redirects: 3 kinds x locations ('/'+c and c for all 256 Latin-1 code points, empty, 10 kB, non-BMP, URL; thorough: + U+0100..U+2100 and all Latin-1 x 8 second characters). Non-trivial = cases that reached serialisation (every body case; header cases with an explicit operation; accepted redirects); all cases distinct by construction.",
